@@ -76,3 +76,11 @@ claim("C11",
       "Moreau/separable-sum/unitary-change-of-variables/Cauchy-Schwarz/spectral theorem cited; l1_proj threshold search and complex BoxConstraint bounded only; "
       "numba.vectorize = elementwise map (A-numba); floats as reals.",
       "contract-based deductive verification (symbolic execution of the real bodies on value arrays; z3 incl. nlsat on the relaxed VC)")
+
+claim("C14",
+      "The real LinearLeastSquares.__init__/_get_alg/_get_* code is executed over the complete option lattice (530 paths) on abstract operators/vectors: "
+      "CG gets the normal equations of the documented objective, GradientMethod the gradient of its smooth part (default step 1/lambda_max(A^HA+lamda I)), "
+      "the PDHG triple denotes exactly the documented objective (problem algebra), the ADMM closures are the x/v/multiplier updates of its augmented Lagrangian; "
+      "unsupported combinations raise; y and z are never modified (also when A.H returns its argument); the returned array is the one updated.",
+      "Class contracts of the algorithms from C12/C13/C15 (convergence to fixed points cited); conjugate of the data term from the table; A.N = A^H A (C04).",
+      "contract-based deductive verification (symbolic execution of the real set-up code over the full option lattice; Gram/problem algebra; z3)")
